@@ -63,6 +63,14 @@ TABLE = {
  "C18": [("Proofs/StructBound", n) for n in ["pop_bound_sound", "pop_bound_bounded", "core_bounded_crun", "view_bounded_state_after", "sma_pop", "cyber_pop"]] +
         [("Proofs/StructSched", n) for n in ["sched_pop_bound", "sched_pop_bounded"]],
 }
+EXTRA10 = {
+ "C07": [("Proofs/FRangeP", n) for n in ["C07_f64_exact_ranges", "ratio_range_f64", "all_finite_run_out"]] +
+        [("Proofs/FRangeMy", n) for n in ["myrsi_range_f64", "myrsi_range_f64_nan", "myrsi_nan_ex"]] +
+        [("Proofs/FRangeRsi", n) for n in ["rsi_range_f64", "rsi_range_f64_nan", "rsi_nan_ex"]] +
+        [("Proofs/FRangeHln", n) for n in ["hln_range_f64", "hln_range_f64_fin", "hln_inf_ex"]] +
+        [("Proofs/FRangeNet", n) for n in ["net_range_f64", "net_range_f64_any", "net_any_ex"]],
+ "C15": [("Proofs/FRangeNet", "net_range_f64_any")],
+}
 EXTRA9 = {
  "C16": [("Proofs/FltP", n) for n in ["rsi_flat_f64", "myrsi_flat_f64", "myrsi_flat_f64_all"]] + [("Proofs/FltFlat", n) for n in ["rsi_sums_flat", "myrsi_sums_flat"]],
  "C07": [("Proofs/FltP", "rsi_flat_f64")],
@@ -153,15 +161,15 @@ def strip_comments(s):
 
 def header_of(path, name):
     src = strip_comments(open(path).read())
-    m = re.search(r"^\s*(?:Theorem|Lemma|Corollary)\s+%s\b(.*?)\.\s*\n\s*Proof\b" % re.escape(name), src, re.S | re.M)
+    m = re.search(r"^\s*(?:Theorem|Lemma|Corollary|Example)\s+%s\b(.*?)\.\s*\n\s*Proof\b" % re.escape(name), src, re.S | re.M)
     if not m:
-        m = re.search(r"^\s*(?:Theorem|Lemma|Corollary)\s+%s\b(.*?)\.\s+Proof\b" % re.escape(name), src, re.S | re.M)
+        m = re.search(r"^\s*(?:Theorem|Lemma|Corollary|Example)\s+%s\b(.*?)\.\s+Proof\b" % re.escape(name), src, re.S | re.M)
     if not m:
         raise SystemExit("statement of %s not found in %s" % (name, path))
     return " ".join(m.group(1).split())
 
 def _merge_extra():
-    for ex in (EXTRA2, EXTRA3, EXTRA4, EXTRA5, EXTRA6, EXTRA7, EXTRA8, EXTRA9):
+    for ex in (EXTRA2, EXTRA3, EXTRA4, EXTRA5, EXTRA6, EXTRA7, EXTRA8, EXTRA9, EXTRA10):
         for k, v in ex.items():
             EXTRA[k] = EXTRA.get(k, []) + v
 
